@@ -332,4 +332,106 @@ theorem writer_refines_canon (bits : Nat) (hb : 2 ≤ bits) (cbs : List (Nat × 
     rw [List.foldl_map, List.map_map] at this
     exact this
 
+/-! ### strings and reals -/
+
+theorem fold_pushC_canon_gen (mk : List Nat → Value) (hinj : ∀ a b, mk a = mk b → a = b) :
+    ∀ (l : List (Nat × List Nat)) (pt : Nat) (ps : List Nat) (r : List (Nat × List Nat)),
+    ((l.foldl (fun c x => pushC c x.1 x.2) ((pt, ps) :: r)).reverse.map fun x => (x.1, mk x.2)) =
+      (((pt, ps) :: r).reverse.map fun x => (x.1, mk x.2)) ++ canon.go (mk ps) (l.map fun x => (x.1, mk x.2)) := by
+  intro l
+  induction l with
+  | nil => intro pt ps r; simp [canon.go]
+  | cons y rest ih =>
+    intro pt ps r
+    simp only [List.foldl_cons, List.map_cons, canon.go]
+    by_cases he : ps = y.2
+    · have : pushC ((pt, ps) :: r) y.1 y.2 = (pt, ps) :: r := by simp [pushC, he]
+      rw [this, ih pt ps r]
+      simp [he]
+    · have : pushC ((pt, ps) :: r) y.1 y.2 = (y.1, y.2) :: (pt, ps) :: r := by simp [pushC, he]
+      rw [this, ih y.1 y.2 ((pt, ps) :: r)]
+      have hne : ¬ (mk y.2 = mk ps) := fun e => he (hinj _ _ e).symm
+      simp [hne]
+
+theorem fold_pushC_canon_gen_nil (mk : List Nat → Value) (hinj : ∀ a b, mk a = mk b → a = b) (l : List (Nat × List Nat)) :
+    ((l.foldl (fun c x => pushC c x.1 x.2) []).reverse.map fun x => (x.1, mk x.2)) =
+      canon (l.map fun x => (x.1, mk x.2)) := by
+  cases l with
+  | nil => rfl
+  | cons y rest =>
+    simp only [List.foldl_cons, List.map_cons, canon]
+    have : pushC [] y.1 y.2 = [(y.1, y.2)] := rfl
+    rw [this, fold_pushC_canon_gen mk hinj rest y.1 y.2 []]
+    simp
+
+/-- the byte-wise de-duplicating push of the accumulator is `pushC` on the represented list -/
+theorem acc_push_pushC (a : Acc) (chg : List (Nat × List Nat)) (t : Nat) (e : List Nat)
+    (h1 : a.timesRev = chg.map (·.1)) (h2 : a.entriesRev = chg.map (·.2)) :
+    (a.push t e).timesRev = (pushC chg t e).map (·.1) ∧ (a.push t e).entriesRev = (pushC chg t e).map (·.2) := by
+  cases chg with
+  | nil =>
+    simp only [List.map_nil] at h1 h2
+    simp [Acc.push, h2, pushC]
+  | cons p r =>
+    obtain ⟨pt, ps⟩ := p
+    simp only [List.map_cons] at h1 h2
+    unfold Acc.push
+    rw [h2]
+    by_cases he : ps = e
+    · simp [he, pushC, h1, h2]
+    · simp [he, pushC, h1, h2]
+
+/-- a signal whose callbacks are stored as they come (strings: the characters, reals: the 8 bytes) -/
+theorem fold_plain (tpe : SigType) (wrap : List Nat → WValue)
+    (hstep : ∀ (w : Writer) (t : Nat) (v : List Nat), w.tpe = tpe →
+      addChange w t (wrap v) = some { w with acc := w.acc.push t v }) :
+    ∀ (cbs : List (Nat × List Nat)) (w : Writer) (chg : List (Nat × List Nat)), w.tpe = tpe →
+      w.acc.timesRev = chg.map (·.1) → w.acc.entriesRev = chg.map (·.2) →
+      ∃ w', (cbs.map fun c => (c.1, wrap c.2)).foldl
+          (fun (acc : Option Writer) (c : Nat × WValue) => acc.bind fun w => addChange w c.1 c.2) (some w) = some w' ∧
+        w'.maxStates = w.maxStates ∧
+        w'.acc.timesRev = (cbs.foldl (fun c x => pushC c x.1 x.2) chg).map (·.1) ∧
+        w'.acc.entriesRev = (cbs.foldl (fun c x => pushC c x.1 x.2) chg).map (·.2) := by
+  intro cbs
+  induction cbs with
+  | nil => intro w chg _ h1 h2; exact ⟨w, rfl, rfl, h1, h2⟩
+  | cons cb rest ih =>
+    intro w chg ht h1 h2
+    obtain ⟨g1, g2⟩ := acc_push_pushC w.acc chg cb.1 cb.2 h1 h2
+    obtain ⟨w', f1, f2, f3, f4⟩ := ih { w with acc := w.acc.push cb.1 cb.2 } (pushC chg cb.1 cb.2) ht g1 g2
+    refine ⟨w', ?_, f2, f3, f4⟩
+    simp only [List.map_cons, List.foldl_cons, Option.bind_some, hstep w cb.1 cb.2 ht]
+    exact f1
+
+/-- **string and real signals of the FST writer**: the changes kept are exactly `canon` of the callback sequence (an
+immediately repeated value is not a change, nothing else is dropped), stored verbatim -/
+theorem writer_plain_refines_canon (tpe : SigType) (wrap : List Nat → WValue) (mk : List Nat → Value)
+    (hinj : ∀ a b, mk a = mk b → a = b)
+    (hstep : ∀ (w : Writer) (t : Nat) (v : List Nat), w.tpe = tpe →
+      addChange w t (wrap v) = some { w with acc := w.acc.push t v })
+    (cbs : List (Nat × List Nat)) :
+    ∃ (chg : List (Nat × List Nat)), runWriter tpe (cbs.map fun c => (c.1, wrap c.2)) =
+        some { maxStates := .two, times := chg.map (·.1), entries := chg.map (·.2) } ∧
+      (chg.map fun x => (x.1, mk x.2)) = canon (cbs.map fun c => (c.1, mk c.2)) := by
+  obtain ⟨w', hf, hm, ht, he⟩ := fold_plain tpe wrap hstep cbs { tpe := tpe } [] rfl rfl rfl
+  refine ⟨(cbs.foldl (fun c x => pushC c x.1 x.2) []).reverse, ?_, fold_pushC_canon_gen_nil mk hinj cbs⟩
+  unfold runWriter
+  rw [hf]
+  simp only [hm, ht, he, List.map_reverse]
+
+theorem writer_strings_refine_canon (cbs : List (Nat × List Nat)) :
+    ∃ (chg : List (Nat × List Nat)), runWriter .string (cbs.map fun c => (c.1, WValue.chars c.2)) =
+        some { maxStates := .two, times := chg.map (·.1), entries := chg.map (·.2) } ∧
+      (chg.map fun x => (x.1, Value.str x.2)) = canon (cbs.map fun c => (c.1, Value.str c.2)) :=
+  writer_plain_refines_canon .string WValue.chars Value.str (fun a b e => by cases e; rfl)
+    (fun w t v ht => by simp [addChange, ht]) cbs
+
+theorem writer_reals_refine_canon (cbs : List (Nat × List Nat)) :
+    ∃ (chg : List (Nat × List Nat)), runWriter .real (cbs.map fun c => (c.1, WValue.real c.2)) =
+        some { maxStates := .two, times := chg.map (·.1), entries := chg.map (·.2) } ∧
+      (chg.map fun x => (x.1, Value.real x.2)) = canon (cbs.map fun c => (c.1, Value.real c.2)) :=
+  writer_plain_refines_canon .real WValue.real Value.real (fun a b e => by cases e; rfl)
+    (fun w t v _ => by simp [addChange]) cbs
+
+
 end Wellen.Fst
